@@ -137,6 +137,15 @@ CLAIMED = {
               '__strfdtdur driver loop itself is covered for memory safety in C10; one defect found and fixed'),
         technique='CBMC bounded model checking of the ddiff unit cascade and number printer',
         design='3/C06'),
+    'C05': dict(
+        text=('Bounded model checking over pairs of symbolic dates from two year windows: dt_ddiff in days equals the '
+              'difference of reference day numbers in every representation; the ymd / yd / ywd durations, re-applied to '
+              'the earlier date largest unit first with the real dt_dadd_y/_m/_w/_d, land exactly on the later date; '
+              'swapped operands give the same magnitude with the sign flipped.'),
+        note=('earlier date with day of month <= 28 for month/year formats; business days in C07, seconds in C11; ymcw '
+              'month differences not covered; two listed known findings (__yd_diff, __ywd_diff)'),
+        technique='CBMC bounded model checking of diff kernels composed with the add kernels (inverse law)',
+        design='3/C05'),
 }
 
 NA = {}
